@@ -14,7 +14,7 @@
    The Spec predicates [dest_ok], [normal_exit_ok], [calls_ok] are the ones the
    correspondence check evaluates on the real observations. *)
 From Boltons Require Import Lib.Prelude Model.C04_Model Spec.C04_Spec Check.C04_Check
-     Proofs.C04_Inv Proofs.C04_Examples.
+     Proofs.C04_Inv Proofs.C04_Single Proofs.C04_Transfer Proofs.C04_Examples.
 Open Scope N_scope.
 
 (* At any crash point, under any fault schedule and any buffering behaviour, the destination holds
@@ -55,6 +55,29 @@ Theorem C04_normal_exit :
     content_power (w_fs w) (c_dest c) = Some (new_content ops).
 Proof. exact normal_exit_lemma. Qed.
 Print Assumptions C04_normal_exit.
+
+(* "in one atomic step": among the successful calls of any run at most one changes anything at the
+   destination's name (creates, removes, renames from/onto, links onto, chmods it) -- and exactly one
+   when the with-block returns normally: the publication accepted by C04_publish_after_sync. *)
+Theorem C04_single_step :
+  forall c ops raises s0 umask crash sched o w,
+    c_dest c <> c_part c -> same_dir (c_part c) = true -> wf s0 ->
+    run_save c ops raises s0 umask crash sched = (o, w) ->
+    let calls := map call_of (rev (w_trace w)) in
+    (length (filter (touches (c_dest c)) calls) <= 1)%nat /\
+    (completed o = true -> length (filter (touches (c_dest c)) calls) = 1%nat).
+Proof. exact single_step_lemma. Qed.
+Print Assumptions C04_single_step.
+
+(* The transfer principle of the correspondence check: on every case for which the model reproduces
+   everything observed on the implementation (event trace, exception, the real directory after the run
+   and after each real kill: agree = true), those observations satisfy the Spec (holds = true). *)
+Theorem C04_agree_implies_holds :
+  forall c : c04_case,
+    c_dest (k_cfg c) <> c_part (k_cfg c) -> same_dir (c_part (k_cfg c)) = true ->
+    agree c = true -> holds c = true.
+Proof. exact agree_implies_holds. Qed.
+Print Assumptions C04_agree_implies_holds.
 
 (* the initial directories used by the correspondence run satisfy the well-formedness hypothesis *)
 Theorem C04_initial_wf : forall l, wf (fs_of_list l).
